@@ -8,7 +8,9 @@ EVERY assignment
               bad-signature (v3 share, signed prefix damaged: visible to every servermap update),
               bad-block (v3 share, one block byte damaged: visible only to verify=True),
               [2-of-3: signature-field (v3 share, the signature bytes damaged, prefix intact);
-               thorough: bad-privkey (v3 share, encrypted private key damaged)] }
+               thorough: bad-privkey (v3 share, encrypted private key damaged);
+               foreign-blocks (v3 share whose blocks and block hash tree are those of the v4 share:
+               self-consistent, but not under the signed root hash)] }
 is written to real servers (2-of-3 also with a SECOND copy of share 0, in any of the four versions, on
 a fourth server: more share instances than N), then   check(verify in {F,T})  ->  repair(force in {F,T})   or
 check_and_repair(verify) is run on a node built from the write-cap (thorough: check also under
@@ -42,7 +44,7 @@ ASSUMPTIONS = [
 ]
 K = 2
 STATES = ["v3", "v2", "v3x", "v4", "missing", "badsig", "badblock"]
-HIDDEN = ("badblock", "badprivkey", "short")
+HIDDEN = ("badblock", "badprivkey", "short", "foreignblocks")
 _PREP = {}
 
 
@@ -114,6 +116,15 @@ def build(prep, sh, state):
     elif state == "badblock":
         last = max(int(nm[5:]) for nm in f if nm.startswith("block") and nm[5:].isdigit())
         d = ms.flip(d, f["block%d" % last][0] + 1)
+    elif state == "foreignblocks":
+        # every block (MDMF: with its salt) AND the whole block hash tree taken from the v4 share of the
+        # same share number (same block size): self-consistent, but not what the signed root hash covers
+        d4 = ms.share_data(prep["blob"]["v4"][sh])
+        f4 = ms.fields(d4)
+        if (f["share_data"], f["block_hash_tree"]) != (f4["share_data"], f4["block_hash_tree"]):
+            raise ValueError("v3/v4 layouts differ")
+        for nm in ("share_data", "block_hash_tree"):
+            d = ms.put(d, f[nm], d4[f4[nm][0]:f4[nm][1]])
     elif state == "badprivkey":
         d = ms.flip(d, f["enc_privkey"][0] + 40)
     elif state == "short":
@@ -428,13 +439,13 @@ def run(tier, seed):
     res = common.Result()
     desc = []
     if tier == "quick":
-        plan = [("SDMF", 3, STATES + ["short"], ("noforce@async",), 0),
+        plan = [("SDMF", 3, STATES + ["short", "foreignblocks"], ("noforce@async",), 0),
                 ("SDMF", 3, STATES + ["sigfield", "short"], ("noforce", "force", "car"), 0), ("MDMF", 3, STATES, ("noforce", "force"), 0),
                 ("SDMF", 3, ["v3", "v2", "v3x", "v4", "missing", "badblock"], ("noforce+extra", "force+extra"), 0),
                 ("SDMF", 4, [s for s in STATES if s != "badsig"], ("noforce",), 0), ("MDMF", 4, ["v3", "v2", "v3x", "v4", "missing"], ("force",), 0)]
     else:
         plan = [(f, 3, STATES + ["short", "badprivkey"], ("noforce@async", "car@async"), 0) for f in ("SDMF", "MDMF")]
-        plan += [(f, 3, STATES + ["sigfield", "short", "badprivkey"], ("noforce", "force", "car"), 1) for f in ("SDMF", "MDMF")]
+        plan += [(f, 3, STATES + ["sigfield", "short", "badprivkey", "foreignblocks"], ("noforce", "force", "car"), 1) for f in ("SDMF", "MDMF")]
         plan += [(f, 4, STATES, ("noforce", "force", "car"), 0) for f in ("SDMF", "MDMF")]
         plan += [(f, 3, STATES, ("noforce+extra", "force+extra", "car+extra"), 0) for f in ("SDMF", "MDMF")]
     for d in sorted(set(p[4] for p in plan)):
